@@ -44,16 +44,13 @@ def _redshift_histogram(patch: Patch, binning: Binning) -> NDArray:
     """Worker function that computes a redshift histgram from a given patch and
     binning."""
     redshifts = patch.redshifts
-    # numpy histogram uses the bin edges as closed intervals on both sides
-    if binning.closed == "right":
-        mask = redshifts > binning.edges[0]
-    else:
-        mask = redshifts < binning.edges[-1]
+    weights = patch.weights if patch.has_weights else None
 
-    weights = patch.weights[mask] if patch.has_weights else None
-
-    counts, _ = np.histogram(redshifts[mask], binning.edges, weights=weights)
-    return counts.astype(np.float64)
+    # numpy histogram bins are always closed on the left side, use the same
+    # binning rule as when building trees for the correlation measurements
+    bin_idx = np.digitize(redshifts, binning.edges, right=(binning.closed == "right"))
+    counts = np.bincount(bin_idx, weights=weights, minlength=len(binning) + 2)
+    return counts[1:-1].astype(np.float64)  # remove objects outside of binning
 
 
 def resample_jackknife(observations: NDArray, patch_rows: bool = True) -> NDArray:
